@@ -677,6 +677,7 @@ type checker struct {
 	battery []req
 	mu      sync.Mutex
 	infra   error
+	warmed  bool // the sanity start of a plain block has succeeded
 	insts   int
 	reqs    int
 	self    int // selftest: corrupted expectations noticed
@@ -727,6 +728,15 @@ func (c *checker) findDrift(rn *runner, blocks []*tcase) {
 }
 
 func (c *checker) setInfra(err error) {
+	if c.warmed && strings.HasPrefix(err.Error(), "start failed") && !strings.Contains(err.Error(), "address already in use") {
+		// every block TLC emits loads on a tree that honours the documented directive order (the
+		// sanity start has succeeded): a generated block that does not load - in whatever order it
+		// was written - is a finding about the code, not trouble of the harness
+		first := portRe.ReplaceAllString(strings.SplitN(err.Error(), "\n", 2)[0], "127.0.0.1:PORT")
+		first = regexp.MustCompile(`/tmp/[^ ]*`).ReplaceAllString(first, "TMP")
+		c.res.Add(hx.Mismatch{Key: "C09/load-failure/" + first, What: "a server block generated from the specification does not load: " + err.Error()})
+		return
+	}
 	c.mu.Lock()
 	if c.infra == nil {
 		c.infra = err
@@ -740,8 +750,27 @@ func sameOrder(a, b []string) bool { return ids(a) == ids(b) }
 
 // checkBlock runs the block in its documented order and in the given reorderings.
 func (c *checker) checkBlock(rn *runner, tc *tcase, orders [][]string, selftest bool) {
-	base, _, err := rn.run(tc.Block, c.battery, nil)
+	base, cfa, err := rn.run(tc.Block, c.battery, nil)
 	if err != nil {
+		if strings.HasPrefix(err.Error(), "start failed") && !strings.Contains(err.Error(), "address already in use") {
+			// the block does not load as documented: if one of its reorderings does, the outcome
+			// depends on the written order
+			for _, ord := range orders {
+				if sameOrder(ord, tc.Block) {
+					continue
+				}
+				if _, _, e2 := rn.run(ord, c.battery, []int{0}); e2 == nil {
+					if _, _, e3 := rn.run(tc.Block, c.battery, []int{0}); e3 != nil {
+						c.res.Add(hx.Mismatch{
+							Key:      fmt.Sprintf("C09/perm/block=%s/order=%s/does-not-load", ids(tc.Block), ids(tc.Block)),
+							What:     fmt.Sprintf("block %v does not load when written in the documented order (%v) but loads when written as %v", tc.Block, strings.SplitN(e3.Error(), "\n", 2)[0], ord),
+							Case:     rcase{Clause: "perm", Block: tc.Block, Order: tc.Block, Req: c.battery[0], ReqIdx: 0},
+							Observed: map[string]interface{}{"casketfile": portRe.ReplaceAllString(cfa, "127.0.0.1:PORT"), "error": strings.SplitN(e3.Error(), "\n", 2)[0]}})
+						return
+					}
+				}
+			}
+		}
 		c.setInfra(err)
 		return
 	}
@@ -772,8 +801,21 @@ func (c *checker) checkBlock(rn *runner, tc *tcase, orders [][]string, selftest 
 		if sameOrder(ord, tc.Block) {
 			continue
 		}
-		got, _, err := rn.run(ord, c.battery, nil)
+		got, cfb, err := rn.run(ord, c.battery, nil)
 		if err != nil {
+			if strings.HasPrefix(err.Error(), "start failed") && !strings.Contains(err.Error(), "address already in use") {
+				// the documented order loaded: a reordering of the same lines must load too
+				if _, _, err2 := rn.run(ord, c.battery, []int{0}); err2 != nil {
+					if _, _, err3 := rn.run(tc.Block, c.battery, []int{0}); err3 == nil {
+						c.res.Add(hx.Mismatch{
+							Key:      fmt.Sprintf("C09/perm/block=%s/order=%s/does-not-load", ids(tc.Block), ids(ord)),
+							What:     fmt.Sprintf("block %v loads when written in the documented order but not when written as %v: %v", tc.Block, ord, strings.SplitN(err2.Error(), "\n", 2)[0]),
+							Case:     rcase{Clause: "perm", Block: tc.Block, Order: ord, Req: c.battery[0], ReqIdx: 0},
+							Observed: map[string]interface{}{"casketfile": portRe.ReplaceAllString(cfb, "127.0.0.1:PORT"), "error": strings.SplitN(err2.Error(), "\n", 2)[0]}})
+						continue
+					}
+				}
+			}
 			c.setInfra(err)
 			return
 		}
@@ -1107,6 +1149,7 @@ func TestC09(t *testing.T) {
 		}
 		runners = append(runners, rn)
 	}
+	c.warmed = true
 	if !hx.SelfTest() {
 		c.findDrift(runners[workers], blocks)
 		res.AddExtra("lines_with_stale_model", len(c.drift))
